@@ -149,6 +149,20 @@ Theorem xmr_encode_inj : forall b1 b2 s, bytes_ok b1 -> bytes_ok b2 ->
 Proof. xmr_inst Lemmas.Base58Xmr.encode_inj. Qed.
 
 (* __UnPad's slice start len(dec) - unpad_len is never negative, for every block string *)
+(* text length as a function of the data length (per full block BLOCK_ENC_MAX_BYTE_LEN symbols, then the table row) *)
+Theorem xmr_encode_length : forall b s, bytes_ok b -> xmr_encode b = Ok s ->
+  exists e, nth_error xmr_block_enc_lens (length b mod xmr_block_dec_max) = Some e /\
+    length s = (length b / xmr_block_dec_max * xmr_block_enc_max + e)%nat.
+Proof. xmr_inst Lemmas.Base58Xmr.encode_length. Qed.
+
+(* the two Monero address payload sizes (1 + 32 + 32 [+ 8] + 4 bytes) give the well-known 95 and 106 symbols *)
+Theorem xmr_address_text_lengths : forall b s, bytes_ok b -> xmr_encode b = Ok s ->
+  (length b = 69%nat -> length s = 95%nat) /\ (length b = 77%nat -> length s = 106%nat).
+Proof.
+  intros b s Hb E. destruct (xmr_encode_length b s Hb E) as (e & He & L).
+  split; intros Hl; rewrite Hl in He, L; vm_compute in He; injection He as <-; rewrite L; vm_compute; reflexivity.
+Qed.
+
 Theorem xmr_block_dec_length : forall s d e dec, nth_error xmr_block_enc_lens d = Some e -> length s = e ->
   xmr_b58dec s = Ok dec -> (d <= length dec)%nat.
 Proof. xmr_inst_d Lemmas.Base58Xmr.block_dec_length. Qed.
